@@ -4,7 +4,7 @@ From Coq Require Import String ZArith List Bool PrimFloat.
 From NSL Require Import Base.Types Base.Syntax Model.PyNum Model.IR Model.VM Model.Elab Model.Lower Spec.RefSem Proofs.OpsAgree
                         Proofs.LowerExprProofs Proofs.ElabExprProofs Proofs.ReturnExprProofs Proofs.CallAgreeProofs Harness.FragLib.
 Import ListNotations.
-Open Scope string_scope.
+Local Open Scope string_scope.
 
 (** int g;  export function f(int a, float b) -> float { return (a + 2) * b + g / 1.5 - (a < g); } *)
 Definition ex_e : expr :=
